@@ -12,7 +12,7 @@ from symclif import explore
 
 CLASS_LAYER = ['random_clifford (recursive sampler)', 'random_pauli_map', 'random_clifford_map', 'random_pauli_state', 'random_clifford_state', 'random_bit_state',
                'CliffordGate.forward/backward without maps', 'brickwall_rcc', 'onsite_rcc', 'global_rcc']
-TV_KERNELS = ['pauli_diagonalize1', 'pauli_diagonalize2', 'clifford_rotate_signless', 'front', 'acq', 'pauli_is_onsite']
+TV_KERNELS = ['pauli_diagonalize1', 'pauli_diagonalize2', 'clifford_rotate_signless', 'front', 'acq', 'pauli_is_onsite', 'stabilizer_measure']
 BOUNDS = {'quick': 'validity for every coin value: random_pair N<=3, random_pauli N<=3, random_clifford N<=3, *_map/*_state N<=2, random circuits (onsite, global, brick-wall depth 1) on an arbitrary Inv state N=2; sign bits bijective in their coins; uniformity by pigeonhole (K+1-copy query) for random_clifford N<=2 and random_pauli N<=2; every one of the 720 two-qubit tables has K distinct preimages',
           'thorough': 'N=3: the 720 tables diag(1, S) each have 8 distinct preimages; 9-copy query as stretch'}
 OUTSIDE = 'brick walls deeper than one layer (36 paths per random two-qubit gate multiply; each further gate is the inductive step C05/h_step_random_gate); statistical quality and independence of numba / numpy RNG bits (assumption); uniformity for N>=4 and, unless the stretch obligation discharges, the full N=3 statement; |Sp(2N,2)| = 6, 720, 1451520 from the literature'
@@ -376,6 +376,12 @@ def jobs(tier):
         J.append(dict(harness=('c16', 'h_two_samples'), params=dict(N=1, which=which), timeout_s=300, cost=5))
     for which in ('random_pauli', 'random_clifford') + (('random_clifford_map', 'random_clifford_state') if tier == 'thorough' else ()):
         J.append(dict(harness=('c16', 'h_two_samples'), params=dict(N=2, which=which), timeout_s=600, cost=40, max_paths=8000))
+    # measurement coins are fair (the Born-rule harness of C06: undetermined outcomes are a bijective function of their
+    # coin, log2prob counts them, the post-state is stabilized by the reported outcome), pure and mixed states
+    for N in (1, 2):
+        for r in range(N + 1):
+            J.append(dict(harness=('tableau', 'h_measure'), params=dict(N=N, r=r, L=1, goals='born'), timeout_s=300, cost=10))
+    J.append(dict(harness=('tableau', 'h_measure'), params=dict(N=2, r=1, L=2, goals='born'), timeout_s=300, cost=20))
     N = 2
     for r in range(N + 1):
         for which in ('onsite', 'global', 'brickwall'):
